@@ -102,7 +102,7 @@ CHECKS["C05"] = dict(
          "every configuration point (quick: 8 points covering Optimizations::Disabled, inlining Default/Avoid/InlineSmallFunctions(0,50,10^6), "
          "skip_const_folding, numeric-match threshold 0/2/100, LP solver; thorough: the 58-point lattice): all configurations must agree with "
          "the reference and with each other on values and panic data.",
-    note=_SEM_NOTE + " Gas/steps ignored; Out-of-gas runs re-run with 100x gas, else excluded. The corelib's own test-suite is not run.",
+    note=_SEM_NOTE + " Gas/steps ignored; Out-of-gas runs re-run with 100x gas, else excluded..",
     technique="TLA+ reference semantics CairoSem (TLC) as configuration-free oracle; replay under the configuration lattice + cross-configuration comparison",
     design_ref="3.5, 4, 5/C05", engine="tlc+cvh")
 CHECKS["C08"] = dict(
@@ -279,7 +279,7 @@ def main():
             "replay_cmd_template": f"python3 check/run.py {p} --replay {{path}}",
             "engine": c["engine"],
             "level_claimed": {"category": c["level"], "text": c["text"], "design_ref": c["design_ref"]},
-            "level_note": c["note"],
+            "level_note": c["note"] + (" " + EXTRA_NOTES[p] if p in EXTRA_NOTES else ""),
             "technique": c["technique"],
         })
     na = [{"property_id": p, "reason": NA.get(p, NOT_YET)} for p in ALL if p not in CHECKS]
@@ -310,6 +310,27 @@ def main():
 
 NA = {}
 HOOK_COMMITS = []
+# notes added while the checks were strengthened against seeded changes (DESIGN 11.4)
+EXTRA_NOTES = {
+    "C01": "The modelled subset includes assignment to nested struct members and derived struct equality; 12% of the generated programs are "
+           "probe programs whose main returns targeted probes directly (array / span / loop-with-struct-snapshots / permuting rebuild / "
+           "non-copyable enum pair / pass triggers).",
+    "C05": "The corelib's own test-suite IS run under 2 (quick) / 7 (thorough) configuration points (gas-observing tests excluded); one "
+           "configuration point is a known finding (size-estimation ICE).",
+    "C12": "Projects include call cycles (cycles: strict; cycles_plain: known finding, the gas feedback set depends on the SCC representative = "
+           "smallest intern id); prefix queries intern only the function they ask for, so they really perturb the interning order.",
+    "C13": "Abstract items are concretised as functions, as impls of one trait observed by an ambiguous call (order-sensitive), and as "
+           "mutually recursive functions (known finding: same SCC-representative defect as C12).",
+    "C19": "A fitting class rejected at max_bytecode_size = its exact length is a violation (the property quantifies over size limits); a "
+           "limit that is not enforced stays a diagnostic.",
+    "C03": "The adversarial layer also gets candidate programs just outside the libfunc specialisation guards (wide div_rem divisors, downcast "
+           "ranges over the size limit): skipped when the compiler rejects them, attacked when it accepts them.",
+    "C14": "Mutation operators include boundary values for value arguments of type / libfunc declarations (deterministic pass over every "
+           "declaration), return-arity edits, and deterministic truncations of class felts at the boundaries of the container format; the "
+           "recorded inputs of repaired findings are replayed in every run.",
+    "C08": "(b) now has three variable classes (droppable, non-droppable, PanicDestruct-only); (a) includes probe programs with pairs of "
+           "identical constructions of non-copyable enums.",
+}
 
 if __name__ == "__main__":
     main()
